@@ -3663,6 +3663,13 @@ class CacheDataset(Dataset):
             item = self.keys().index(item)
 
         if isinstance(item, numbers.Integral):
+            if item < 0:
+                # Normalize the index, otherwise ds[-1] and ds[len(ds) - 1]
+                # would be cached (and computed) independently.
+                _item = item
+                item = item + len(self)
+                if item < 0:
+                    raise IndexError(_item)
             try:
                 return self._cache[item]
             except KeyError:
